@@ -34,6 +34,9 @@ def run(ctx):
     ctx.guard("table", "fe32", lambda: C15.check_tables(ctx, P2, "fe32"))
     ctx.guard("limbpoly", "fe64", lambda: C15.check_field_ops(ctx, P, "fe64", "K0"))
     ctx.guard("limbpoly", "fe32", lambda: C15.check_field_ops(ctx, P2, "fe32", "K2"))
+    from . import febounds
+    ctx.guard("fe-bounds", "fe64", lambda: febounds.check_fe64(ctx, P, "K0"))
+    ctx.guard("fe-bounds", "fe32", lambda: febounds.check_fe32(ctx, P2, "K2"))
     ctx.guard("exponent", "fe64", lambda: C12.check_exponents(ctx, P, "K0", "fe64"))
     ctx.guard("exponent", "fe32", lambda: C12.check_exponents(ctx, P2, "K2", "fe32"))
     ctx.guard("canonical", "fe64", lambda: C15.check_canonical(ctx, P, "fe64"))
@@ -47,4 +50,4 @@ def run(ctx):
         ctx.guard("select", "ge/" + tag, lambda: C15.check_select(ctx, prog, "fe64" if tag == "K0" else "fe32"))
         ctx.guard("verify", "ed25519::verify/" + tag, lambda: C14.check_verify(ctx, prog))
     ctx.trusted += ["definition-derived oracle cxsa/spec/curve.py", "ssa evaluator, limb-polynomial normal form"]
-    ctx.not_decided += ["absence of overflow / truncation inside either backend's limb arithmetic", "fe32 from_bytes / to_bytes as bit maps (carry-based)", "scalar32 reduction arithmetic"]
+    ctx.not_decided += ["limb bounds at the call sites of the group code for fe32 (per-operation contracts are decided by fe-bounds)", "fe32 from_bytes / to_bytes as bit maps (carry-based)", "scalar32 reduction arithmetic"]
